@@ -38,7 +38,7 @@ def pregen(check):
 
 CFG = {
     "id": "C20",
-    "lean_modules": ["GeomV.C20.Proofs", "GeomV.C20.ProofsEqual", "GeomV.C20.ProofsRegistry", "GeomV.C20.ProofsWgs"],
+    "lean_modules": ["GeomV.C20.Proofs", "GeomV.C20.ProofsEqual", "GeomV.C20.ProofsRegistry", "GeomV.C20.ProofsWgs", "GeomV.C20.ProofsNumeral"],
     "exe": "geomv_c20",
     "go_cmd": "c20",
     "stages": ["go:gen", "lean:prep", "go:impl", "lean:judge"],
@@ -62,7 +62,11 @@ CFG = {
                                  # nothing below the route decision reads the datum code
                                  "genCheckNotWGS_eq", "genCheckNotWGS_flag", "genTwoHops_eq", "genPjd_eq", "route_source_pins",
                                  "literal_differs", "transform3_code", "transformers_code", "transform_code", "wkt_flag", "p4_flag",
-                                 "equalFold_eq_c08"]],
+                                 "equalFold_eq_c08",
+                                 # the numeral contract PROVED for every decimal with <= 400 fractional digits; the two headline
+                                 # theorems without it as a hypothesis
+                                 "C20_numeral_contract", "C20_parse_agree_scales", "C20_transform_agree_scales", "numeralOK_of_scale",
+                                 "parseFloat_render", "numeralsRead_of_scales"]],
     "level": "proof",
     "trusted_base": [
         "Lean 4.33.0 kernel; axioms of every theorem printed by #print axioms must be within {propext, Classical.choice, Quot.sound}",
@@ -73,9 +77,11 @@ CFG = {
         "harness/cmd/c20 + lean driver + lib/vcheck.py transport inputs faithfully",
     ],
     "assumptions": ["ASCII definitions; no +pm= (owned by C09), no hexadecimal float literals",
-                    "C20_parse_agree has ONE hypothesis beyond wellFormed/styleOK: the numeral contract numeralsRead c (strconv.ParseFloat reads each "
-                    "decimal of c, as renderDec writes it, as that decimal; the text is a non-empty token over [0-9.-]) - decidable, evaluated by the "
-                    "judge for every numeral of every generated case (DIFF when false)",
+                    "the numeral contract numeralsRead c (hypothesis of C20_parse_agree / C20_transform_agree: the model of strconv.ParseFloat reads each "
+                    "decimal of c, as renderDec writes it, as that decimal; non-empty token over [0-9.-]) is PROVED for every decimal with at most 400 "
+                    "fractional digits (C20_numeral_contract); C20_parse_agree_scales / C20_transform_agree_scales have the side condition scalesOK c "
+                    "(no numeral with more than 400 fractional digits: the bound of the model's exponent guard) instead; the judge still evaluates "
+                    "numeralsRead on every generated case (DIFF when false)",
                     "the micrometre clause on compiled float code is numeric evidence from the correspondence run, not a theorem"],
     "rule": "structured CRS descriptions (5 projected kinds + geographic; spheroids built-in or random (a,1/f); TOWGS84 with 3/7 terms or a named datum; "
             "metre/foot/US survey foot with false origins that are not round in metres; WKT spellings: ESRI names, AUTHORITY, blanks, AXIS) rendered by the "
